@@ -1,4 +1,6 @@
-(* Metrics.v — executable model of sleap_nn/evaluation.py: find_frame_pairs,
+(* Metrics.v — executable model of sleap_nn/evaluation.py: find_frame_pairs (several videos, frames on
+   one side only, duplicate frames, predicted instances among the ground truth, the overwrite of
+   `lf.instances`),
    match_frame_pairs, compute_dists and Evaluator.{voc_metrics, mOKS,
    distance_metrics, pck_metrics, visibility_metrics, evaluate}.
    No proofs in this file.  match_instances is the model of C15 (Oks.v).
@@ -62,17 +64,104 @@ Arguments Ok {A} a.
 Arguments ErrEmpty {A}.
 Arguments ErrValue {A}.
 
-(* find_frame_pairs: gt frames in order; with user_labels_only frames without user
-   instances are skipped; a gt frame is paired when exactly one prediction frame
-   carries the same frame index *)
-Definition find_pairs (ulo : bool) (gtf : list gframe) (prf : list pframe) : list (gframe * pframe) :=
-  flat_map (fun gf : gframe =>
-              let '(idx, gts, _) := gf in
-              if ulo && (length gts =? 0)%nat then []
-              else match filter (fun pf : pframe => (fst (fst pf) =? idx)%nat) prf with
-                   | [pf] => [(gf, pf)]
-                   | _ => []
-                   end) gtf.
+(* ---- labels (sio.Labels as find_frame_pairs reads them) ----
+   A video is identified by (filename id, HDF5 dataset id): find_frame_pairs pairs a gt video with the
+   FIRST prediction video whose backend type, filename and dataset are equal (all backends are HDF5Video
+   here; other backends have no `.dataset`/`.source_filename` and raise AttributeError: outside the model).
+   A frame refers to its video by position in the labels' video list (Video objects compare by identity).
+   An instance is (pose, None) for a user `Instance` and (pose, Some score) for a `PredictedInstance`. *)
+Definition vkey := (nat * nat)%type.
+Definition inst := (pose * option Q)%type.
+Record lframe := LF { lf_video : nat; lf_idx : nat; lf_insts : list inst }.
+Definition labels := (list vkey * list lframe)%type.
+(* (gt frame position, prediction frame position) -> the float64 OKS of every instance of the gt frame
+   (rows, before any user_labels_only filtering) with every instance of the prediction frame *)
+Definition oksdb := list (nat * nat * smatrix).
+
+Definition vkey_eqb (a b : vkey) : bool := (fst a =? fst b)%nat && (snd a =? snd b)%nat.
+Fixpoint find_video (k : vkey) (vs : list vkey) (pos : nat) : option nat :=
+  match vs with
+  | [] => None
+  | v :: t => if vkey_eqb v k then Some pos else find_video k t (S pos)
+  end.
+
+Definition enum {A} (l : list A) : list (nat * A) := zip (seq 0 (length l)) l.
+Definition is_user (i : inst) : bool := match snd i with None => true | Some _ => false end.
+Definition score_of (i : inst) : Q := match snd i with Some s => s | None => 0 end.
+
+(* Labels.find(video): the frames of that video object, in order, with their positions *)
+Definition frames_of (vi : nat) (fs : list lframe) : list (nat * lframe) :=
+  filter (fun pf : nat * lframe => (lf_video (snd pf) =? vi)%nat) (enum fs).
+
+(* Labels.find(video, frame_idx=i) = [Labels.get_frame(video, i)] (sleap-io >= 0.9: a dict keyed by
+   (video, frame index) filled in frame order, so of several frames with the same key the LAST one is
+   kept), hence the `len(labeled_frames_pr) == 1` test of find_frame_pairs never fails for a frame that
+   exists.  State of the scan: (position of the next frame, last match so far). *)
+Definition frame_matches (vi idx : nat) (f : lframe) : bool :=
+  (lf_video f =? vi)%nat && (lf_idx f =? idx)%nat.
+Definition scan_step (vi idx : nat) (st : nat * option (nat * lframe)) (f : lframe)
+  : nat * option (nat * lframe) :=
+  (S (fst st), if frame_matches vi idx f then Some (fst st, f) else snd st).
+Definition get_frame (vi idx : nat) (fs : list lframe) : option (nat * lframe) :=
+  snd (fold_left (scan_step vi idx) fs (0%nat, None)).
+
+Fixpoint db_get (db : oksdb) (i j : nat) : smatrix :=
+  match db with
+  | [] => []
+  | (a, b, M) :: t => if (a =? i)%nat && (b =? j)%nat then M else db_get t i j
+  end.
+
+Definition keep_rows {A} (flags : list bool) (l : list A) : list A :=
+  map snd (filter (fun x : bool * A => fst x) (zip flags l)).
+
+(* which instances of a gt frame take part: `lf.instances = lf.user_instances` with user_labels_only *)
+Definition gt_flags (ulo : bool) (f : lframe) : list bool := map (fun x => negb ulo || is_user x) (lf_insts f).
+
+(* one gt frame (position i) of a gt video paired with prediction video vp *)
+Definition pair_frame (ulo : bool) (db : oksdb) (vp : nat) (prfs : list lframe) (gi : nat * lframe)
+  : list ((nat * nat) * (gframe * pframe)) :=
+  let '(i, f) := gi in
+  let gts := keep_rows (gt_flags ulo f) (map fst (lf_insts f)) in
+  if ulo && (length gts =? 0)%nat then []
+  else match get_frame vp (lf_idx f) prfs with
+       | None => []
+       | Some (j, pf) =>
+           [((i, j), ((lf_idx f, gts, keep_rows (gt_flags ulo f) (db_get db i j)),
+                      (lf_idx pf, map fst (lf_insts pf), map score_of (lf_insts pf))))]
+       end.
+
+(* find_frame_pairs with the positions (gt frame, prediction frame) of every pair *)
+Definition find_pairs_pos (ulo : bool) (db : oksdb) (gtL prL : labels)
+  : list ((nat * nat) * (gframe * pframe)) :=
+  flat_map (fun vk : nat * vkey =>
+              match find_video (snd vk) (fst prL) 0 with
+              | None => []                                       (* `continue`: no such prediction video *)
+              | Some vp => flat_map (pair_frame ulo db vp (snd prL)) (frames_of (fst vk) (snd gtL))
+              end) (enum (fst gtL)).
+
+Definition find_pairs (ulo : bool) (db : oksdb) (gtL prL : labels) : list (gframe * pframe) :=
+  map snd (find_pairs_pos ulo db gtL prL).
+
+(* the side effect of find_frame_pairs(user_labels_only=True) on the gt labels: in every frame of a
+   gt video that has a prediction video, `lf.instances` is overwritten by the user instances.  The
+   OKS table follows (rows of dropped instances disappear). *)
+Definition video_paired (gtL prL : labels) (f : lframe) : bool :=
+  match nth_error (fst gtL) (lf_video f) with
+  | Some k => match find_video k (fst prL) 0 with Some _ => true | None => false end
+  | None => false
+  end.
+Definition strip (f : lframe) : lframe := LF (lf_video f) (lf_idx f) (filter is_user (lf_insts f)).
+Definition mutate_gt (ulo : bool) (gtL prL : labels) : labels :=
+  if ulo then (fst gtL, map (fun f => if video_paired gtL prL f then strip f else f) (snd gtL)) else gtL.
+Definition mutate_db (ulo : bool) (gtL prL : labels) (db : oksdb) : oksdb :=
+  if ulo then
+    map (fun e : nat * nat * smatrix =>
+           let '(i, j, M) := e in
+           match nth_error (snd gtL) i with
+           | Some f => if video_paired gtL prL f then (i, j, keep_rows (map is_user (lf_insts f)) M) else e
+           | None => e
+           end) db
+  else db.
 
 (* match_instances on one frame pair -> (positive pairs, number of false negatives) *)
 Definition pairs_of_frame (fixed_F51 : bool) (thr : Q) (fp : gframe * pframe)
@@ -98,9 +187,9 @@ Fixpoint match_frames (fixed_F51 : bool) (thr : Q) (fps : list (gframe * pframe)
   end.
 
 (* Evaluator._process_frames *)
-Definition process (fixed_F51 ulo : bool) (thr : Q) (gtf : list gframe) (prf : list pframe)
+Definition process (fixed_F51 ulo : bool) (thr : Q) (db : oksdb) (gtL prL : labels)
   : outcome (list ppair * nat) :=
-  match find_pairs ulo gtf prf with
+  match find_pairs ulo db gtL prL with
   | [] => ErrEmpty
   | fps => match match_frames fixed_F51 thr fps with
            | Some r => Ok r
@@ -254,12 +343,18 @@ Definition report_of (rnd : Q -> Q) (n_nodes : nat) (pps : list ppair) (n_fn : n
       (voc_metrics rnd (map (pck_pair_score pthrs) pps) pps n_fn mthrs rthrs).
 
 Definition evaluate (rnd : Q -> Q) (fixed_F51 ulo : bool) (thr : Q) (n_nodes : nat)
-  (gtf : list gframe) (prf : list pframe) (mthrs rthrs pthrs : list Q) : outcome report :=
-  match process fixed_F51 ulo thr gtf prf with
+  (db : oksdb) (gtL prL : labels) (mthrs rthrs pthrs : list Q) : outcome report :=
+  match process fixed_F51 ulo thr db gtL prL with
   | Ok (pps, n_fn) => Ok (report_of rnd n_nodes pps n_fn mthrs rthrs pthrs)
   | ErrEmpty => ErrEmpty
   | ErrValue => ErrValue
   end.
+
+(* a second Evaluator built on the SAME label objects after Evaluator(user_labels_only = ulo1) *)
+Definition evaluate_after (rnd : Q -> Q) (fixed_F51 ulo1 ulo2 : bool) (thr : Q) (n_nodes : nat)
+  (db : oksdb) (gtL prL : labels) (mthrs rthrs pthrs : list Q) : outcome report :=
+  evaluate rnd fixed_F51 ulo2 thr n_nodes (mutate_db ulo1 gtL prL db) (mutate_gt ulo1 gtL prL) prL
+           mthrs rthrs pthrs.
 
 (* recall at one match-score threshold straight from the pairs (equal to vr_recall,
    Lemmas.v): used to state the deletion theorems *)
@@ -269,7 +364,9 @@ Definition recall_of (rnd : Q -> Q) (t : Q) (pps : list ppair) (n_fn : nat) : Q 
 
 (* ---- entry points for the correspondence harness ---- *)
 Inductive case :=
-| CEval (fixed_F51 ulo : bool) (thr : Q) (n_nodes : nat) (gtf : list gframe) (prf : list pframe)
+| CEval (fixed_F51 ulo : bool) (thr : Q) (n_nodes : nat) (db : oksdb) (gtL prL : labels)
+        (mthrs rthrs pthrs : list Q)
+| CEval2 (fixed_F51 ulo1 ulo2 : bool) (thr : Q) (n_nodes : nat) (db : oksdb) (gtL prL : labels)
         (mthrs rthrs pthrs : list Q)
 | CRnd (l : list Q).
 
@@ -279,7 +376,8 @@ Inductive result :=
 
 Definition run (c : case) : result :=
   match c with
-  | CEval f u t n g p m r k => REval (evaluate round_f64 f u t n g p m r k)
+  | CEval f u t n d g p m r k => REval (evaluate round_f64 f u t n d g p m r k)
+  | CEval2 f u u2 t n d g p m r k => REval (evaluate_after round_f64 f u u2 t n d g p m r k)
   | CRnd l => RRnd (map round_f64 l)
   end.
 
